@@ -116,6 +116,9 @@ OBLIGATIONS = [
     native("n_c17_occupancy", ["C17"], "C17.occupancy", "EnergyProps::from(&Model) (occ_spaces_hours_in_use, occ_spaces_average_load, loads_avg)", RN + "n_c17_occupancy"),
     native("n_c17_convert_year", ["C17"], "C17.convert.year", "convert::schedules_from_bdl / day_of_year", CV + "n_c17_convert_year"),
     native("n_c17_convert_week_day", ["C17"], "C17.convert.week", "convert::schedules_from_bdl", CV + "n_c17_convert_week_day"),
+    native("n_c14_seed_closed", ["C14"], "C14.seed", "Model::energy_indicators / EnergyIndicators::as_json", RN + "n_c14_seed_closed"),
+    native("n_c14_single_edits", ["C14"], "C14.edit1", "Model::energy_indicators (EnergyProps::from, compute_fshobst, KData, N50Data, QSolJulData, check)", RN + "n_c14_single_edits", crash=True, timeout=300),
+    native("n_c14_double_edits", ["C14"], "C14.edit2", "Model::energy_indicators", RN + "n_c14_double_edits", crash=True, timeout=600),
     native("n_c09_n50", ["C09"], "C09.n50", "N50Data::from(&EnergyProps)", EN + "n_c09_n50"),
     native("n_c10_qsoljul", ["C10"], "C10.qsoljul", "QSolJulData::from(&EnergyProps, &HashMap<Orientation,f32>)", EN + "n_c10_qsoljul"),
     native("n_c10_july_table", ["C10", "C20"], "C10.table", "climatedata::total_radiation_in_july_by_orientation", EN + "n_c10_july_table"),
